@@ -891,13 +891,16 @@ INT_EXPRS = [  # (tokens, value)
 ]
 
 
-def int_spelling(rng, n: int) -> list:
-    """Tokens of a constant expression without identifiers whose value is the non-negative integer n."""
+def int_spelling(rng, n: int, level: int = 0) -> list:
+    """Tokens of a constant expression without identifiers whose value is the non-negative integer n (`level`: the binding strength
+    the place needs - 5 for the right operand of `+`; only the constant-expression form is ever weaker than that)."""
     r = rng.random()
-    if r < 0.4:
+    if r < 0.35:
         return rng.choice(INT_EXPRS)(n)
-    if r < 0.7:
+    if r < 0.6:
         return T(int_literal(rng, n))
+    if r < 0.8:
+        return gen_rx_integer(rng, n, level)[0]   # a constant expression with non-integer / negative intermediate values (see "constant expressions")
     return int_by_reals(rng, n)
 
 
@@ -908,7 +911,7 @@ def int_expr(rng, n: int, consts: dict):
         k, v = rng.choice(usable)
         if v == n and rng.random() < 0.5:
             return T(k), [k]
-        return cat(T(k, "o", "+", "o"), int_spelling(rng, n - v) if rng.random() < 0.3 else T(str(n - v))), [k]
+        return cat(T(k, "o", "+", "o"), int_spelling(rng, n - v, 5) if rng.random() < 0.3 else T(str(n - v))), [k]
     return int_spelling(rng, n), []
 
 
@@ -965,6 +968,352 @@ def gen_real_expr(rng, max_abs=None, signed: bool = True) -> typing.Tuple[list, 
 def exact_ratio_tokens(v: fractions.Fraction) -> list:
     """v >= 0 written with plain decimal integers only: `p` or `p / q`."""
     return T(str(v.numerator)) if v.denominator == 1 else T(str(v.numerator), "o", "/", "o", str(v.denominator))
+
+
+# ------------------------------------------------------------------------------------------------- constant expressions
+#
+# Constant EXPRESSIONS over numbers: every arithmetic / bitwise operator of the grammar (`+ - * / % **`, `| ^ &`, unary `+ -`) over
+# integer and non-integer rationals - zero, negative, huge operands, integer and real literals of every spelling -, power with
+# negative, zero and huge integer exponents and with fractional exponents whose result is exact (`(9/4) ** (3/2)`), nested, written
+# with the parentheses the grammar needs (precedence and associativity as in the grammar: `**` binds tighter than a unary sign on its
+# left and is right-associative, `| ^ &` share one level) plus redundant ones.  The expression is built as a TREE and its value is
+# computed HERE, bottom-up, in exact integer arithmetic on numerator / denominator (`rx_apply`; never by evaluating the text), and
+# every constant, capacity, @extent, @print and @assert written with it is judged against that value.
+# Expressions that have no value (division by zero, 0 ** -1, bitwise operators on non-integers) are not generated.
+
+RX_DIGITS = 350   # size limit of numerator / denominator of every intermediate value
+RX_PREC = {"**": 7, "*": 5, "/": 5, "%": 5, "+": 4, "-": 4, "|": 3, "^": 3, "&": 3}
+Fr = fractions.Fraction
+
+
+def rx_floor(x: fractions.Fraction) -> int:
+    return x.numerator // x.denominator
+
+
+def rx_size(x: fractions.Fraction) -> int:
+    return max(len(str(abs(x.numerator))), len(str(x.denominator)))
+
+
+def rx_apply(op: str, a: fractions.Fraction, b: fractions.Fraction) -> typing.Optional[fractions.Fraction]:
+    """The exact value of `a op b`; None if the operation is undefined (or too big to be worth generating)."""
+    if op == "+":
+        return Fr(a.numerator * b.denominator + b.numerator * a.denominator, a.denominator * b.denominator)
+    if op == "-":
+        return Fr(a.numerator * b.denominator - b.numerator * a.denominator, a.denominator * b.denominator)
+    if op == "*":
+        return Fr(a.numerator * b.numerator, a.denominator * b.denominator)
+    if op == "/":
+        return None if b == 0 else Fr(a.numerator * b.denominator, a.denominator * b.numerator)
+    if op == "%":   # the remainder of the floored quotient: a - b * floor(a / b), sign of the divisor
+        if b == 0:
+            return None
+        q = rx_floor(Fr(a.numerator * b.denominator, a.denominator * b.numerator))
+        return a - b * q
+    if op == "**":
+        if b.denominator != 1:
+            return None
+        e = b.numerator
+        if a == 0 and e < 0:
+            return None
+        if rx_size(a) * abs(e) > RX_DIGITS:
+            return None
+        return Fr(a.numerator ** e, a.denominator ** e) if e >= 0 else Fr(a.denominator ** -e, a.numerator ** -e)
+    if a.denominator != 1 or b.denominator != 1:
+        return None
+    x, y = a.numerator, b.numerator
+    return Fr(x | y if op == "|" else x ^ y if op == "^" else x & y)
+
+
+def rx_lit(text: str, v) -> dict:
+    return {"k": "lit", "t": text, "v": Fr(v)}
+
+
+def rx_int_lit(rng, n: int) -> dict:
+    return rx_lit(int_literal(rng, n) if rng.random() < 0.4 else str(n), n)
+
+
+def rx_un(k: str, a: dict) -> dict:
+    return {"k": k, "a": a, "v": -a["v"] if k == "neg" else a["v"]}
+
+
+def rx_bin(op: str, a: dict, b: dict) -> typing.Optional[dict]:
+    v = rx_apply(op, a["v"], b["v"])
+    if v is None or rx_size(v) > RX_DIGITS:
+        return None
+    return {"k": "bin", "op": op, "a": a, "b": b, "v": v}
+
+
+def rx_signed(rng, n: int) -> dict:
+    return rx_int_lit(rng, n) if n >= 0 else rx_un("neg", rx_int_lit(rng, -n))
+
+
+def rx_ratio(rng, v: fractions.Fraction) -> dict:
+    """v written as `p`, `p / q`, `-p / q` or a real literal (when it has one)."""
+    v = Fr(v)
+    num = rx_signed(rng, v.numerator)
+    if v.denominator == 1:
+        return num
+    if v > 0 and rng.random() < 0.3:
+        k = next((i for i in range(1, 31) if (v * 10 ** i).denominator == 1), None)   # a terminating decimal fraction
+        if k is not None:
+            lit, lv = spell_real(rng, int(v * 10 ** k), -k)
+            if lv == v:
+                return rx_lit(lit, lv)
+    out = rx_bin("/", num, rx_int_lit(rng, v.denominator))
+    assert out is not None and out["v"] == v
+    return out
+
+
+def rx_leaf(rng) -> dict:
+    r = rng.random()
+    if r < 0.4:
+        n = rng.choice([0, 1, 1, 2, 2, 3, 3, 5, 6, 7, 9, 10, 10, 12, 255])
+        return rx_int_lit(rng, n)
+    if r < 0.55:
+        return rx_int_lit(rng, rng.choice([rng.randint(0, 1000), rng.randint(0, 2 ** 32), 2 ** rng.randint(1, 70) + rng.choice([-1, 0, 1]), 10 ** rng.randint(2, 30)]))
+    if r < 0.9:
+        lit, v = spell_real(rng, rng.choice([0, 1, 5, 15, 25, 125, rng.randint(1, 9999)]), rng.randint(-5, 3))
+        return rx_lit(lit, v)
+    lit, v = spell_real(rng, rng.randint(1, 999), rng.choice([-40, -25, 25, 40, 60]), notation="exp")   # huge / tiny
+    return rx_lit(lit, v)
+
+
+def rx_small_int(rng, lo: int, hi: int, depth: int = 1) -> dict:
+    """A small integer (an exponent) as a literal, a signed literal or a little expression of its own."""
+    n = rng.randint(lo, hi)
+    r = rng.random()
+    if r < 0.6 or depth <= 0:
+        return rx_signed(rng, n)
+    if r < 0.7:
+        k = rng.randint(1, 9)
+        return rx_bin("-", rx_int_lit(rng, n + k), rx_int_lit(rng, k)) if n + k >= 0 else rx_signed(rng, n)
+    if r < 0.8:
+        k = rng.choice([2, 3, 4])
+        return rx_bin("/", rx_signed(rng, n * k), rx_int_lit(rng, k))
+    if r < 0.9 and n < 0 and -n in (4, 8, 9):   # `2 ** -2 ** 2` is 2 ** -(2 ** 2)
+        b, e = {4: (2, 2), 8: (2, 3), 9: (3, 2)}[-n]
+        return rx_un("neg", rx_bin("**", rx_int_lit(rng, b), rx_int_lit(rng, e)))
+    lit, v = spell_real(rng, abs(n), 0)
+    return rx_lit(lit, v) if n >= 0 else rx_un("neg", rx_lit(lit, v))
+
+
+SQUARE_ROOTS = [(2, 1), (3, 1), (5, 1), (7, 1), (10, 1), (12, 1), (1, 2), (3, 2), (5, 2), (7, 4), (9, 8), (1, 4), (15, 16), (4, 1), (1, 1), (0, 1)]
+
+
+def rx_power(rng, depth: int) -> typing.Optional[dict]:
+    r = rng.random()
+    if r < 0.3:
+        # an integer that is no power of two (possibly negative) to a NEGATIVE integer power: the result is no binary fraction
+        b = rng.choice([3, 3, 5, 6, 7, 9, 10, 10, 11, 12, 100, 1000, rng.randint(3, 999)])
+        base = rx_int_lit(rng, b) if rng.random() < 0.75 else rx_un("neg", rx_int_lit(rng, b))
+        return rx_bin("**", base, rx_small_int(rng, -6, -1, depth))
+    if r < 0.5:
+        # a non-integer base (written as a real literal, a quotient or a deeper expression) to an integer power of either sign
+        base = rx_gen(rng, depth - 1) if rng.random() < 0.5 else rx_ratio(rng, Fr(rng.randint(-30, 30), rng.choice([2, 3, 4, 5, 7, 10, 16, 100])))
+        return rx_bin("**", base, rx_small_int(rng, -5, 5, depth))
+    if r < 0.65:
+        # 2 and 10 to huge powers of either sign
+        return rx_bin("**", rx_int_lit(rng, rng.choice([2, 2, 10, 16])), rx_small_int(rng, -250, 250, 0))
+    if r < 0.78:
+        # zero and one as base or exponent
+        k = rng.random()
+        if k < 0.25:
+            return rx_bin("**", rx_lit(rng.choice(["0", "0.0", "0e5"]), 0), rx_small_int(rng, 0, 5, depth))
+        if k < 0.6:
+            return rx_bin("**", rx_gen(rng, depth - 1), rx_lit(rng.choice(["0", "0.0", "00"]), 0))   # also 0 ** 0 = 1
+        if k < 0.8:
+            return rx_bin("**", rx_lit(rng.choice(["1", "1.0", "0x1"]), 1), rx_small_int(rng, -300, 300, depth))
+        return rx_bin("**", rx_gen(rng, depth - 1), rx_lit(rng.choice(["1", "1.", "1e0"]), 1))
+    if r < 0.9:
+        # a fractional exponent whose result is exact: the square of a binary fraction to the power k/2
+        a, b = rng.choice(SQUARE_ROOTS)
+        k = rng.choice([1, 1, 3, 5]) * (rng.choice([1, -1]) if a in (1, 2, 4) else 1)   # a negative one only where the result stays a binary fraction
+        base = rx_ratio(rng, Fr(a * a, b * b))
+        ex = rx_ratio(rng, Fr(k, 2))
+        if rx_size(Fr(a, b)) * abs(k) > 40:
+            return None
+        v = rx_apply("**", Fr(a, b), Fr(k))
+        return None if v is None else {"k": "bin", "op": "**", "a": base, "b": ex, "v": v, "root": True}
+    # right-associative towers: a ** b ** c is a ** (b ** c)
+    a, b, c = rng.choice([2, 3, 10]), rng.choice([2, 3]), rng.choice([0, 1, 2])
+    inner = rx_bin("**", rx_int_lit(rng, b), rx_int_lit(rng, c))
+    return rx_bin("**", rx_int_lit(rng, a) if rng.random() < 0.6 else rx_ratio(rng, Fr(1, a)), inner if rng.random() < 0.6 else rx_un("neg", inner))
+
+
+def rx_integer(rng, depth: int) -> dict:
+    """An expression whose value is an integer (operand of a bitwise operator), of either sign."""
+    for _ in range(6):
+        n = rx_gen(rng, depth)
+        if n["v"].denominator == 1 and rx_size(n["v"]) <= 40:
+            return n
+        if rx_size(n["v"]) <= 30:
+            m = rx_bin("*", n, rx_int_lit(rng, n["v"].denominator))
+            if m is not None:
+                return m
+    return rx_signed(rng, rng.randint(-300, 300))
+
+
+def rx_gen(rng, depth: int) -> dict:
+    """A random constant expression over numbers: the tree with the exact value of every node."""
+    for _ in range(20):
+        r = rng.random()
+        n: typing.Optional[dict]
+        if depth <= 0 or r < 0.22:
+            n = rx_leaf(rng)
+            if rng.random() < 0.25:
+                n = rx_un("neg", n)
+        elif r < 0.45:
+            n = rx_power(rng, depth)
+        elif r < 0.53:
+            n = rx_un(rng.choice(["neg", "neg", "pos"]), rx_gen(rng, depth - 1))
+        elif r < 0.65:
+            n = rx_bin(rng.choice("|^&"), rx_integer(rng, depth - 1), rx_integer(rng, depth - 1))
+        else:
+            n = rx_bin(rng.choice(["+", "-", "*", "*", "/", "/", "%", "%"]), rx_gen(rng, depth - 1), rx_gen(rng, depth - 1))
+        if n is not None and rx_size(n["v"]) <= RX_DIGITS:
+            return n
+    return rx_leaf(rng)
+
+
+def rx_level(n: dict) -> int:
+    return 9 if n["k"] == "lit" else 6 if n["k"] in ("neg", "pos") else RX_PREC[n["op"]]
+
+
+def rx_text(n: dict, rng, level: int = 0) -> typing.List[str]:
+    """The tokens of the expression, with the parentheses the grammar needs at this place (and now and then redundant ones)."""
+    k = n["k"]
+    if k == "lit":
+        out = [n["t"]]
+    elif k in ("neg", "pos"):
+        out = ["-" if k == "neg" else "+"] + rx_text(n["a"], rng, 7)   # the operand of a sign: a power or an atom
+    elif n["op"] == "**":
+        out = rx_text(n["a"], rng, 9) + ["**"] + rx_text(n["b"], rng, 6)   # atom ** (signed | power | atom): right-associative
+    else:
+        lv = RX_PREC[n["op"]]
+        out = rx_text(n["a"], rng, lv) + [n["op"]] + rx_text(n["b"], rng, lv + 1)   # chains of one level associate to the left
+    if rx_level(n) < level or rng.random() < 0.06:
+        out = ["("] + out + [")"]
+    return out
+
+
+def rx_toks(words: typing.List[str]) -> list:
+    return [[w, "o"] for w in words[:-1]] + [[words[-1], "n"]]
+
+
+def rx_classes(n: dict) -> typing.List[str]:
+    """Feature names: the operators of the expression and the classes of its powers."""
+    out: typing.List[str] = []
+    todo = [n]
+    while todo:
+        x = todo.pop()
+        if x["k"] == "lit":
+            continue
+        if x["k"] in ("neg", "pos"):
+            out.append("op:unary" + ("-" if x["k"] == "neg" else "+"))
+            todo.append(x["a"])
+            continue
+        out.append("op:" + x["op"])
+        a, b = x["a"]["v"], x["b"]["v"]
+        if x["op"] == "**":
+            base = "zero" if a == 0 else ("integer" if a.denominator == 1 else "non-integer") + (":negative" if a < 0 else "") + \
+                (":power-of-two" if a > 0 and a.denominator == 1 and a.numerator & (a.numerator - 1) == 0 else "")
+            ex = "fractional" if b.denominator != 1 else "zero" if b == 0 else ("negative" if b < 0 else "positive") + (":huge" if abs(b) > 20 else "")
+            out.append("power:%s-base:%s-exponent" % (base, ex))
+        elif x["op"] in "/%" and (a.denominator != 1 or b.denominator != 1):
+            out.append("op:%s:non-integer-operand" % x["op"])
+        if x["op"] in "%|^&" and (a < 0 or b < 0):
+            out.append("op:%s:negative-operand" % x["op"])
+        todo += [x["a"], x["b"]]
+    return sorted(set(out))
+
+
+def gen_rx(rng, max_abs=None, depth: typing.Optional[int] = None, nonneg: bool = False) -> typing.Tuple[list, fractions.Fraction, list]:
+    """(tokens, exact value, feature classes) of a random constant expression; |value| <= max_abs."""
+    for _ in range(40):
+        n = rx_gen(rng, depth if depth is not None else rng.choice([1, 2, 2, 3]))
+        if n["k"] == "lit" or (max_abs is not None and abs(n["v"]) > max_abs) or (nonneg and n["v"] < 0):
+            continue
+        return rx_toks(rx_text(n, rng)), n["v"], rx_classes(n)
+    n = rx_bin("**", rx_lit("3", 3), rx_un("neg", rx_lit("1", 1)))
+    assert n is not None
+    return rx_toks(rx_text(n, rng)), n["v"], rx_classes(n)
+
+
+def gen_rx_integer(rng, target: int, level: int = 0) -> typing.Tuple[list, list]:
+    """(tokens, feature classes) of an expression with non-integer / negative intermediate values whose exact value is the integer
+    `target` (>= 0): a random expression E corrected by what it lacks (`E + (n - v)`, `E * (n / v)`), products with a negative power
+    that cancel (`n * 3 ** -2 * 9`), remainders, bitwise decompositions."""
+    n = target
+    for _ in range(20):
+        r = rng.random()
+        x: typing.Optional[dict]
+        if r < 0.3:
+            e = rx_gen(rng, rng.choice([1, 2]))
+            d = Fr(n) - e["v"]
+            x = rx_bin("+", e, rx_ratio(rng, d)) if d >= 0 else rx_bin("-", e, rx_ratio(rng, -d))
+        elif r < 0.45:
+            e = rx_gen(rng, rng.choice([1, 2]))
+            if e["v"] == 0 or rx_size(e["v"]) > 60:
+                continue
+            x = rx_bin("*", e, rx_ratio(rng, Fr(n) / e["v"]))
+        elif r < 0.65:
+            b, k = rng.choice([3, 5, 6, 7, 10, 12]), rng.randint(1, 4)
+            p = rx_bin("**", rx_int_lit(rng, b), rx_small_int(rng, -k, -k, 1))
+            if p is None:
+                continue
+            parts = [rx_int_lit(rng, n), p, rx_int_lit(rng, b ** k)]
+            rng.shuffle(parts)
+            y = rx_bin("*", parts[0], parts[1])
+            x = None if y is None else rx_bin("*", y, parts[2])
+        elif r < 0.8:
+            m = n + rng.randint(1, 50)
+            k = rng.randint(-3, 3)
+            x = rx_bin("%", rx_signed(rng, n + k * m), rx_int_lit(rng, m))
+        else:
+            mask = rng.randint(0, max(1, n) * 2)
+            op = rng.choice("|^&")
+            if op == "^":
+                x = rx_bin("^", rx_int_lit(rng, n ^ mask), rx_int_lit(rng, mask))
+            elif op == "|":
+                x = rx_bin("|", rx_int_lit(rng, n & mask), rx_int_lit(rng, n & ~mask))
+            else:
+                hi = 1 << (max(n, mask).bit_length() + 1)
+                x = rx_bin("&", rx_int_lit(rng, n | (mask & ~n)), rx_int_lit(rng, n | (hi - 1 - mask) & ~n))
+        if x is not None and x["v"] == n:
+            return rx_toks(rx_text(x, rng, level)), rx_classes(x)
+    return T(str(n)), []
+
+
+RX_CMP = {"==": lambda a, b: a == b, "!=": lambda a, b: a != b, "<": lambda a, b: a < b, "<=": lambda a, b: a <= b, ">": lambda a, b: a > b, ">=": lambda a, b: a >= b}
+
+
+def gen_rx_comparison(rng) -> typing.Tuple[list, bool, list]:
+    """(tokens, truth value, feature classes) of a comparison of two constant expressions (the second one near the first)."""
+    a, va, ca = gen_rx(rng)
+    r = rng.random()
+    if r < 0.5:
+        d = rng.choice([Fr(0), Fr(0), Fr(1, 10 ** 20), Fr(-1, 10 ** 20), Fr(1), Fr(-1, 3)])
+        n = rx_ratio(rng, va + d)
+        b, vb, cb = rx_toks(rx_text(n, rng, 3)), n["v"], []
+    else:
+        b, vb, cb = gen_rx(rng)
+    op = rng.choice(sorted(RX_CMP))
+    if rng.random() < 0.5:
+        return cat(a, "o", T(op), "o", b), RX_CMP[op](va, vb), sorted(set(ca + cb + ["op:" + op]))
+    return cat(b, "o", T(op), "o", a), RX_CMP[op](vb, va), sorted(set(ca + cb + ["op:" + op]))
+
+
+def gen_rx_true(rng) -> typing.Tuple[list, list]:
+    """(tokens, feature classes) of a boolean expression over comparisons of constant expressions that is TRUE."""
+    a, ta, ca = gen_rx_comparison(rng)
+    if rng.random() < 0.6:
+        return (a, ca) if ta else (cat(T("!", "o", "(", "o"), a, "o", T(")")), ca + ["op:!"])
+    b, tb, cb = gen_rx_comparison(rng)
+    op = rng.choice(["&&", "||"])
+    t = (ta and tb) if op == "&&" else (ta or tb)
+    toks = cat(a, "o", T(op), "o", b)
+    cl = sorted(set(ca + cb + ["op:" + op]))
+    return (toks, cl) if t else (cat(T("!", "o", "(", "o"), toks, "o", T(")")), cl + ["op:!"])
 
 
 LIT_REAL = re.compile(r"^(?:[0-9][0-9_]*)?(?:\.(?:[0-9][0-9_]*)?)?(?:[eE]([+-]?)([0-9][0-9_]*))?$")
@@ -1067,12 +1416,16 @@ def gen_const(rng, ctx, name: str):
     """A valid constant statement: (line, python value)"""
     k = rng.random()
     refs: list = []
+    rx: typing.Optional[list] = None
     if k < 0.15:
         v = rng.choice([True, False])
         e = rng.choice([T("true"), T("!", "o", "false"), T("1", "o", "<", "o", "2"), T("true", "o", "||", "o", "false")]) if v else \
             rng.choice([T("false"), T("!", "o", "true"), T("1", "o", ">", "o", "2")])
         ttoks, norm, val = T("bool"), "bool", "true" if v else "false"
         pv: typing.Any = None
+        if rng.random() < 0.4:
+            e, v, rx = gen_rx_comparison(rng)
+            val = "true" if v else "false"
     elif k < 0.35:
         n = rng.choice([16, 32, 64])
         ttoks, norm = T("float%d" % n), "saturated float%d" % n
@@ -1082,7 +1435,10 @@ def gen_const(rng, ctx, name: str):
         if rng.random() < 0.8:
             # the number is written with real literals of every spelling; its exact value is computed by the generator
             r = rng.random()
-            if r < 0.1:
+            if r < 0.4:
+                # a constant expression over integers and non-integers (powers with negative exponents, remainders, ...)
+                e, fv, rx = gen_rx(rng, FLOAT_MAX[n])
+            elif r < 0.5:
                 # the largest finite value of the type, exactly, written as a real literal
                 fv = FLOAT_MAX[n] * rng.choice([1, 1, -1])
                 lit, v0 = spell_real(rng, int(abs(fv)), 0, notation="exp")
@@ -1104,11 +1460,17 @@ def gen_const(rng, ctx, name: str):
         if signed and rng.random() < 0.3:
             pv2 = rng.choice([1, 5, hi + 1])
             e, val, pv = T("-", "o", str(pv2)), str(-pv2), -pv2
+            if rng.random() < 0.4:   # the negative integer as the value of a constant expression: `-(E)` with E = pv2
+                inner, rx = gen_rx_integer(rng, pv2)
+                e = cat(T("-", "o", "(", "o"), inner, "o", T(")"))
         else:
             e, refs = int_expr(rng, pv, ctx["consts"])
             val = str(pv)
     toks = cat(ttoks, "r", T(name), "o", T("="), "o", e)
-    return mk_line(toks, ["attr", "const", name, norm, val], refs=refs), pv
+    ln = mk_line(toks, ["attr", "const", name, norm, val], refs=refs)
+    if rx:
+        ln["rx"] = rx
+    return ln, pv
 
 
 PRINT_EXPRS = [(T("1", "o", "+", "o", "2"), "3"), (T("1", "o", "/", "o", "3"), "1/3"), (T("'abc'"), "'abc'"), (T('"a b"'), "'a b'"),
@@ -1191,9 +1553,14 @@ def gen_schema(rng, ctx, deps_to_use: list, union: bool, deprecated_here: bool) 
                 lines.append(ln)
             elif r < 0.12:
                 lines.append(mk_line(T("@print"), ["dir", "print", None, ""]))
-            elif r < 0.3:
+            elif r < 0.22:
                 e, fv, _form = gen_real_expr(rng)
                 lines.append(mk_line(cat(T("@print"), "r", e), ["dir", "print", ["o"], frac_str(fv)]))
+            elif r < 0.36:
+                e, fv, rx = gen_rx(rng)
+                ln = mk_line(cat(T("@print"), "r", e), ["dir", "print", ["o"], frac_str(fv)])
+                ln["rx"] = rx
+                lines.append(ln)
             elif r < 0.45 and ctx["consts"]:
                 cn, cv = rng.choice(sorted(ctx["consts"].items()))
                 lines.append(mk_line(T("@print", "r", cn, "o", "*", "o", "2"), ["dir", "print", ["r", cv * 2], str(cv * 2)], refs=[cn]))
@@ -1232,6 +1599,17 @@ def gen_schema(rng, ctx, deps_to_use: list, union: bool, deprecated_here: bool) 
             elif rng.random() < 0.3 and ctx["consts"]:
                 cn, cv = rng.choice(sorted(ctx["consts"].items()))
                 lines.append(mk_line(T("@assert", "r", cn, "o", "==", "o", str(cv)), ["dir", "assert", ["b", True], ""], refs=[cn]))
+            elif rng.random() < 0.4:
+                # a constant expression equals its exact value written as a ratio of integers / comparisons of constant expressions
+                if rng.random() < 0.5:
+                    e, fv, rx = gen_rx(rng)
+                    want = rx_toks(rx_text(rx_ratio(rng, fv), rng, 3))
+                    toks = cat(e, "o", T("=="), "o", want) if rng.random() < 0.7 else cat(want, "o", T("=="), "o", e)
+                else:
+                    toks, rx = gen_rx_true(rng)
+                ln = mk_line(cat(T("@assert"), "r", toks), ["dir", "assert", ["b", True], ""])
+                ln["rx"] = rx
+                lines.append(ln)
             elif rng.random() < 0.4:
                 # a number written with real literals equals its exact value written as a ratio of decimal integers
                 e, fv, _form = gen_real_expr(rng, signed=False)
@@ -2291,6 +2669,15 @@ class TextSuite(common.Suite):
                             yield cl
                             if cl.startswith("real-literal:exponent:-") or cl == "real-literal:point":
                                 yield "real-literal-at:%s:%s" % (where, "negative-exponent" if "exponent" in cl else "point")
+                    # constant expressions: operators per place, classes of the powers (see "constant expressions")
+                    words = [t[0] for t in l.get("toks") or []]
+                    for wi, w in enumerate(words):
+                        if w in ("**", "%", "/", "*", "|", "^", "&") or (w in "+-" and wi > 0 and words[wi - 1] not in ("=", "(", "[", "<=", "<", "==", "@print", "@assert", "@extent")):
+                            yield "expr-op:%s:%s" % (where, w)
+                        if w == "**" and wi + 1 < len(words):
+                            yield "expr-power-at:%s:%s" % (where, "negative-exponent" if words[wi + 1] == "-" else "parenthesised-exponent" if words[wi + 1] == "(" else "plain-exponent")
+                    for cl in l.get("rx") or []:
+                        yield "const-expr:" + cl
                 if s:
                     yield "stmt:" + (s[0] if s[0] != "dir" else "@" + s[1]) + (":" + s[1] if s[0] == "attr" else "")
                 elif line_is_empty(l):
